@@ -90,6 +90,26 @@ func c02TCStream(w *c02World, st *c02Streams) {
 	hq := w.render(c02Spec{parts: w.genuine(c02Range(1, w.q), mV)})
 	w.evalTC(st, w.mkTC(hq, 5), "view-relabelled-up", false)
 	w.evalTC(st, w.mkTC(hq, 3), "view-relabelled-down", false)
+	// a certificate is genuine only for exactly the 64-bit view that was signed: relabel by large deltas
+	// (+-2^32, 2^32+1, 2^33, 2^48, 2^63, wrap-around), from small bases and from bases at 2^32 and 2^64-1
+	for bi, base := range []uint64{4, 1<<32 - 1, 1 << 32, 1<<32 + 1, 1<<64 - 2} {
+		hb := hq
+		if base != 4 {
+			hb = w.render(c02Spec{parts: w.genuine(c02Range(1, w.q), w.mView(base))})
+			w.evalTC(st, w.mkTC(hb, base), fmt.Sprintf("honest-view-%d", base), true)
+		}
+		deltas := c02ViewDeltas
+		if bi > 1 {
+			deltas = []uint64{1 << 32, -(1 << 32) & (1<<64 - 1), 1}
+		}
+		for _, d := range deltas {
+			stated := base + d // wraps modulo 2^64
+			if stated == 0 || stated == base {
+				continue
+			}
+			w.evalTC(st, w.mkTC(hb, stated), fmt.Sprintf("view-%d-relabelled-by-%d", base, d), false)
+		}
+	}
 	w.evalTC(st, w.mkTC(hq, 0), "view-zero-with-signature", false)
 	w.evalTC(st, w.mkTC(w.render(c02Spec{absent: true}), 0), "view-zero", true)
 	w.evalTC(st, w.mkTC(w.render(c02Spec{parts: w.genuine(c02Range(1, w.n), w.mView(1<<63))}), 1<<63), "honest-extreme-view", true)
